@@ -332,10 +332,12 @@ class Engine:
         rc, out, secs, rss, to = sh(cmd, cwd=wd, timeout=120)
         if rc != 0 or not os.path.exists(gb):
             return None, out
-        for (site, target) in q.restrict_fp:
+        if q.restrict_fp:
             g2 = gb + ".r"
-            rc, out2, *_ = sh(["goto-instrument", "--restrict-function-pointer", "%s/%s" % (site, target), gb, g2],
-                              cwd=wd, timeout=120)
+            cmd = ["goto-instrument"]
+            for (site, target) in q.restrict_fp:
+                cmd += ["--restrict-function-pointer", "%s/%s" % (site, target)]
+            rc, out2, *_ = sh(cmd + [gb, g2], cwd=wd, timeout=120)
             if rc != 0 or not os.path.exists(g2):
                 return None, out2
             os.replace(g2, gb)
